@@ -31,6 +31,18 @@ CLAIMS = {
         note="Trusted base: Python slicing semantics; NDR64/tower layout transcribed from C706 appendix L and MS-RPCE 2.2.1.2.5.",
         ref="DESIGN.md section 5 / C18",
     ),
+    "C13": dict(
+        technique="static analysis: symbolic evaluation of the framing code over linear length expressions; cross-module layout constants derived from extracted codec tables",
+        text="Decides symbolically in the stub length: literal offsets (24, view[8:10], +8) equal the table-derived offsets; verification trailer after (-len) mod 4 zeros, auth padding (-len) mod 16 computed after it and equal to the get_empty_trailer argument; auth_len, alloc_hint, frag_len patch; wrap/unwrap receive exactly header [0:o0], body [o0:o1], trailer [o1:o1+8] (+signature) and the provider's IOV marks header/trailer sign_only|data_readonly with encrypt=True; exactly pad_length reply bytes are cut. Does not decide: what the security context does with the buffers.",
+        note="Trusted base: Python slicing/bytes semantics; E4 layout tables of Request/Response/PDUHeader/SecTrailer.",
+        ref="DESIGN.md section 5 / C13",
+    ),
+    "C16": dict(
+        technique="static analysis: CFG path enumeration over truth values of atomic conditions (must-pass-through), symbolic window arguments, dominance of the security-context call",
+        text="Decides: every path of _process_response that returns a PDU on an authenticated call with a sealed request passes through unwrap and stores its result before parsing; unwrap gets exactly the raw wire windows and the negotiated sign_header; the provider verifies on every return path with header/trailer as sign_only|data_readonly; both trailers are PKT_PRIVACY and wrap encrypts; request() returns the post-unwrap PDU in both transports; no handler swallows failures. Does not decide: replay protection / cryptographic strength inside spnego.",
+        note="Trusted: spnego unwrap_iov raises on a bad signature; Python slicing semantics.",
+        ref="DESIGN.md section 5 / C16",
+    ),
 }
 
 NA_REASON = "check not built yet in this session (design in DESIGN.md section 5); not claimed until its engine passes the self-test"
